@@ -172,7 +172,17 @@ class MetadataManager:
                     try:
                         hint_bytes, hint_etag = self.storage.read_file_with_etag(self.HINT_PATH)
                         parsed = self._parse_hint_content(hint_bytes)
-                        if parsed is not None:
+                        # Number the new version from the hint only if the hint
+                        # names an existing file. A dangling hint ("0", or a
+                        # well-formed name of a missing lower version) would
+                        # otherwise make this commit publish v(K+1) below the
+                        # versions already in storage; after the next hint loss
+                        # the recovery scan resolves to the OLDER, higher-numbered
+                        # file and this commit vanishes. Fall through to the
+                        # recovery-aware _current_version_info() below instead.
+                        if parsed is not None and self.storage.exists(
+                            f"{self.metadata_path}/{parsed[1]}"
+                        ):
                             filesystem_version, previous_metadata_file = parsed
                     except FileNotFoundError:
                         hint_etag = None
